@@ -302,6 +302,12 @@ impl Server {
         &self.thread_name
     }
 
+    /// Simulation builds only: read access to this worker's statistics recorder
+    #[cfg(roughenough_verif)]
+    pub fn verif_stats(&self) -> &dyn ServerStats {
+        self.stats_recorder.as_ref()
+    }
+
     fn compute_delay(base: Duration) -> Duration {
         if base.as_secs() < 1 {
             return base;
